@@ -217,7 +217,22 @@ def decide(pid, tier, seed, run, signatures=None, search=None, assumptions=()):
     t0 = time.time()
     signatures = signatures or {}
     aud = audit(pid, tier)
-    oc = run(tier, seed)
+    try:
+        oc = run(tier, seed)
+    except Exception as e:  # noqa: BLE001
+        # The harness completes on the unchanged tree.  If it is the LIBRARY that raised (innermost frame in
+        # mosromgr/) at a point where the harness does not expect it to, the code no longer behaves as the
+        # model says: a broken correspondence, reported as such - not an infrastructure failure.
+        import traceback
+        from . import impl
+        tb = traceback.extract_tb(e.__traceback__)
+        if not (tb and os.path.abspath(tb[-1].filename).startswith(os.path.join(impl.REPO, 'mosromgr') + os.sep)):
+            raise
+        oc = Outcome(pid)
+        oc.disagreements.append({'kind': 'harness-aborted', 'what': 'the library raised where the unchanged library (and the model) does not; '
+                                 'the correspondence run could not complete', 'impl': impl.err_name(e),
+                                 'traceback': [f'{f.filename}:{f.lineno} {f.name}' for f in tb[-6:]]})
+        oc.rule = 'run aborted'
     lines = []
     n_viol = 0
     unlisted = []
